@@ -94,6 +94,7 @@ func runProp(repo, verif, id, tier, onlyConstruct string) (code int) {
 		if d.Thorough != nil {
 			d.Thorough(c)
 		}
+		positiveControls(c, verif, repo, id, d)
 		// the same rules on the other build configurations; only non-discharged
 		// results are carried over (constructs are identical across configurations)
 		for _, lc := range []LoadConfig{{GOARCH: "386"}, {Tags: "verif,race"}} {
@@ -104,11 +105,17 @@ func runProp(repo, verif, id, tier, onlyConstruct string) (code int) {
 			d.Run(c2)
 			n := 0
 			for _, o := range c2.Obls {
-				if o.Status != Discharged {
-					o.Construct = o.Construct + " {" + name + "}"
-					c.add(o)
-				}
 				n++
+				if o.Status == Discharged {
+					continue
+				}
+				// the same construct with the same verdict in the default configuration
+				// is already reported (or listed as a known finding) there
+				if i, ok := c.okeys[o.Rule+"|"+o.Construct]; ok && c.Obls[i].Status == o.Status {
+					continue
+				}
+				o.Construct = o.Construct + " {" + name + "}"
+				c.add(o)
 			}
 			c.Stats["obligations_other_configs"] += n
 			c.Stats["product_states"] += c2.Stats["product_states"]
